@@ -255,10 +255,14 @@ def whole_run_protocol(ctx, bt, n, corr_name="whole-run", make_spec=None, footpr
 
 # ---------------------------------------------------------------------------------------------------------------
 # extended programs (`wholerunx`): the selection part is a sequence of SelectAll / SelectThese / SelectHasData / SelectMomentum
-def gen_stack_x(rng, names, lev=False):
+def gen_stack_x(rng, names, lev=False, rank_ok=True):
+    """rank_ok=False: no ranked selection (a strategy over sub-strategies: their indices are exactly flat until they trade, so total
+    returns tie exactly and the winner would be pandas' sort order, an implementation detail the model does not claim)"""
     base = gen_stack(rng, names, lev)
     sched, wgh = base[0], base[2]
     r = rng.random()
+    if not rank_ok:
+        r = 0.2 if r < 0.5 else 0.9
     if r < 0.25:
         sels = [["SelectAll"], ["SelectHasData", rng.choice([1, 2, 3, 5, 10]), rng.randint(1, 4)]]
     elif r < 0.6:
@@ -286,7 +290,7 @@ def gen_spec_x(rng, nested=None):
 
     def redo(t):
         names = [k["name"] for k in t["kids"]] + t["tickers"]
-        t["stack"] = gen_stack_x(rng, names)
+        t["stack"] = gen_stack_x(rng, names, rank_ok=not t["kids"])
         for k in t["kids"]:
             redo(k)
     redo(spec["tree"])
@@ -294,14 +298,14 @@ def gen_spec_x(rng, nested=None):
     for t in spec["tickers"]:
         if rng.random() < 0.25:
             k = rng.randint(1, max(1, T // 2))
-            spec["prices"][t] = [None] * k + [p if p is not None else 10.0 for p in spec["prices"][t][k:]]
+            spec["prices"][t] = [None] * k + [p if p is not None else 10.0 + 0.37 * i for i, p in enumerate(spec["prices"][t][k:])]
     # a late listing may only meet stacks whose selection filters on data
     def safe(t):
         st = t["stack"]
         return st[-2][0] == "WeighEqually" and all(safe(k) for k in t["kids"])
     if not safe(spec["tree"]):
-        for t in spec["tickers"]:
-            spec["prices"][t] = [p if p is not None else 10.0 for p in spec["prices"][t]]
+        for j, t in enumerate(spec["tickers"]):
+            spec["prices"][t] = [p if p is not None else 10.0 + 0.37 * i + j for i, p in enumerate(spec["prices"][t])]
     return spec
 
 
